@@ -60,7 +60,7 @@ def gen(rng, tier):
                         vac = sum(([0.0] * ny + [1.0] for _ in range(nx)), [])
                         for st in ("spx", "ref", "own"):
                             out.append(Case("abduce", ty, rng.choice(FAMS), st, [nx, ny], flat_sx(wy) + vac + ax, tag="all_vacuous"))
-                    out.append(Case("abduce_with", ty, fam, rng.choice(["spx", "ref"]), [nx, ny],
+                    out.append(Case("abduce_with", ty, fam, rng.choice(["spx", "ref", "own"]), [nx, ny],
                                     flat_sx(wy) + cn + ax + ay, tag=tag))
                     if tier != "quick" or i % 6 == 0:
                         for f2 in FAMS:
